@@ -781,6 +781,15 @@ func (c *mgComp) Run(args []string) string {
 		})
 		c.closeAll()
 		return "ok"
+	case "readd":
+		k, held := 1, byte('U')
+		if len(args) > 1 {
+			k, _ = strconv.Atoi(args[1])
+		}
+		if len(args) > 2 && args[2] == "S" {
+			held = 'S'
+		}
+		return mgReaddRace(k, held)
 	case "run":
 		specs, err := mgParseTargets(args[1:])
 		if err != nil {
@@ -977,6 +986,10 @@ func (c *mgComp) Gen(r *rand.Rand, tier string) []string {
 			line += " / " + mgGenTarget(r)
 		}
 		seq = append(seq, line)
+	}
+	if r.Intn(5) == 0 {
+		// Remove in flight while the same name is added again from another goroutine (mg_race.go)
+		seq = append(seq, fmt.Sprintf("readd %d %s", 1+r.Intn(3), []string{"U", "U", "S"}[r.Intn(3)]))
 	}
 	return append(seq, "end")
 }
